@@ -454,7 +454,7 @@ func (c08) Eval(t *testing.T, c *Case, dec func(int) *Decider) *Outcome {
 				inStmt, polls := c08StmtYields(pre, &meta)
 				for i := 0; i < n; i++ {
 					at := 1 + r.Intn(y)
-					if len(polls) > 0 && r.Bool(0.3) {
+					if len(polls) > 0 && r.Bool(0.2) {
 						// a cancellation is noticed where the statement polls its context (between two
 						// phases, between two target tables): aim at those points
 						at = polls[r.Intn(len(polls))]
